@@ -20,10 +20,20 @@ mod leaky {
     use std::alloc::{GlobalAlloc, Layout, System};
     pub struct Leaky;
     unsafe impl GlobalAlloc for Leaky {
+        // The Kani runs of C03 stub the allocator entry points to notice heap
+        // traffic inside a delivery; stubs are not applied to playback tests, so
+        // the native allocator notices it instead.
         unsafe fn alloc(&self, l: Layout) -> *mut u8 {
+            if libc::vshim::in_delivery() {
+                libc::vshim::flag(libc::vshim::E_ALLOC_IN_DELIVERY);
+            }
             System.alloc(l)
         }
-        unsafe fn dealloc(&self, _p: *mut u8, _l: Layout) {}
+        unsafe fn dealloc(&self, _p: *mut u8, _l: Layout) {
+            if libc::vshim::in_delivery() {
+                libc::vshim::flag(libc::vshim::E_ALLOC_IN_DELIVERY);
+            }
+        }
     }
     #[global_allocator]
     static A: Leaky = Leaky;
@@ -62,6 +72,14 @@ pub fn ok<T>(r: Result<T, std::io::Error>) -> Option<T> {
 }
 
 pub fn noop_mut<T>(_: &mut T) {}
+
+/// `core::hint::spin_loop` (and `std::sync::atomic::spin_loop_hint`, which calls
+/// it) compile to a pause intrinsic Kani does not support; code under test that
+/// spins goes through the shim's spin accounting instead (stubbed in the
+/// channel harnesses, where waiting is the subject of C08).
+pub fn spin_stub() {
+    vshim::spin()
+}
 
 // ---- invocation log shared by the registry-level harnesses ------------------
 pub const NLOG: usize = 8;
